@@ -140,6 +140,8 @@ impl Database {
     pub uninterp spec fn last_dirty(&self) -> Seq<Value>;
     pub uninterp spec fn last_ts(&self) -> Value;
     pub uninterp spec fn last_tables(&self) -> Seq<TableId>;
+    /// ghost history: for every rule set run so far, the mid-timestamps its rule variants were built with
+    pub uninterp spec fn ran(&self) -> Seq<Seq<Timestamp>>;
 
     pub open spec fn uf_len(&self) -> nat { self.table_len(self.uf()) }
 
@@ -190,7 +192,9 @@ impl Database {
             final(self).same_frame(old(self)),
             forall|t: TableId| final(self).table_len(t) == old(self).table_len(t),
             forall|ts: Seq<TableId>| final(self).canonical(ts) == old(self).canonical(ts),
+            final(self).ran() == old(self).ran(),
             r.log() == Seq::<AddRuleCall>::empty(),
+            r.mids() == Seq::<Timestamp>::empty(),
     { unimplemented!() }
 
     // A-db: running a rule set (queries, staged actions, merge) keeps a canonical database canonical
@@ -198,6 +202,7 @@ impl Database {
     #[verifier::external_body]
     pub fn run_rule_set(&mut self, rs: &RuleSet, level: ReportLevel, context: ExternalContext<'_>) -> (r: RuleSetReport)
         ensures
+            final(self).ran() == old(self).ran().push(rs.mids()),
             final(self).same_frame(old(self)),
             final(self).uf_len() >= old(self).uf_len(),
             forall|ts: Seq<TableId>| old(self).canonical(ts) && final(self).uf_len() == old(self).uf_len() ==> final(self).canonical(ts),
@@ -265,6 +270,11 @@ pub enum Constraint {
 pub struct RuleSetBuilder { _p: core::marker::PhantomData<u8> }
 impl RuleSetBuilder {
     pub uninterp spec fn log(&self) -> Seq<AddRuleCall>;
+    /// mid-timestamps of the `Query::add_rules_from_cached` calls made on this builder, in order
+    pub uninterp spec fn mids(&self) -> Seq<Timestamp>;
     #[verifier::external_body]
-    pub fn build(self) -> (r: RuleSet) { unimplemented!() }
+    pub fn build(self) -> (r: RuleSet) ensures r.mids() == self.mids() { unimplemented!() }
+}
+impl RuleSet {
+    pub uninterp spec fn mids(&self) -> Seq<Timestamp>;
 }
